@@ -54,7 +54,7 @@ pub fn info() -> PropertyInfo {
         rule: "cases = stgen program (search 'clean': strict dial; search 'implicit': implicit dial with untyped literals, widening assignments, mixed-width operands) + generated extension PROGRAM XExt (AT-bound %I/%Q/%M variables of every I/O-capable type incl. subrange/alias/array/struct/FB-member/global bindings, untyped-literal initialisers of every elementary type, FOR loops over every integer type and over subrange/alias control variables with bounds of other types, FUNCTION/FB calls with VAR_INPUT/VAR_OUTPUT/VAR_IN_OUT of ten numeric types, subrange/alias/enum/STRING[n]/struct/array variables, RETAIN variables) x history of 1-6 steps (direct input-image writes with boundary bit patterns, debugger set/force/unforce with the value the control handlers construct, cycle, warm/cold restart); the storage-wide invariant is checked after compilation, after every cycle and after every restart; non-trivial = compiled, >= 1 cycle completed without fault, >= 10 storage leaves walked and >= 2 different write-path kinds exercised (initialiser, I/O latch of a written image value, FOR control, parameter binding, derived-type assignment, retain, restart, debugger write, implicit conversion); distinct by SHA-256 of (source, events)",
         assumptions: &[
             "declared types come from the generator (stgen AST / extension unit), never from the runtime's metadata; aliases are resolved by the generator",
-            "the value of a FOR control variable after its loop is implementer-specific; only its type tag (and, for the generated small ranges, the subrange) is asserted",
+            "FOR control variables are walked like every other variable: the type tag and the range of the type are asserted after every cycle (also when the only write was the initial assignment: zero-trip loop, EXIT/RETURN in the first iteration); only the VALUE left after the loop is implementer-specific and not compared",
             "VAR_IN_OUT parameters, VAR_TEMP and FUNCTION locals have no storage at a cycle boundary and are not walked; REAL/LREAL values latched from the input image may be any bit pattern (NaN/inf are not range violations)",
             "debugger writes replicate control.rs parse_value (TRUE/FALSE -> BOOL, integer text -> LINT) and go through DebugControl::enqueue_global_write / force_global / force_instance / enqueue_io_write exactly as handle_set / handle_var_force / handle_io_write do",
             "while finding F8 is open a foreign tag is accepted only at a location, with the tag and through the write path that the F8 model predicts for the generated program (static closure, superset: context-insensitive per POU type, array elements collapsed), only after a cycle; after compilation and after a restart (non-RETAIN) nothing is accepted",
@@ -62,8 +62,8 @@ pub fn info() -> PropertyInfo {
         workers_quick: 8,
         workers_thorough: 16,
         address_space_limit: 0,
-        watchdog_quick_s: 900,
-        watchdog_thorough_s: 7200,
+        watchdog_quick_s: 2400,
+        watchdog_thorough_s: 14400,
         run,
     }
 }
@@ -227,6 +227,16 @@ pub fn materialize(
         s.push_str("  END_VAR\n");
         s
     };
+    let cblock = if x.config_text.is_empty() {
+        String::new()
+    } else {
+        let mut s = String::from("  VAR_CONFIG\n");
+        for l in &x.config_text {
+            s.push_str(&format!("    {l}\n"));
+        }
+        s.push_str("  END_VAR\n");
+        s
+    };
     if has_conf {
         let marker = "CONFIGURATION Conf\n";
         let at = printed.find(marker).unwrap_or(printed.len());
@@ -237,7 +247,7 @@ pub fn materialize(
         let tail = tail.replacen(marker, &format!("{marker}{gblock}"), 1);
         let tail = tail.replacen(
             "END_CONFIGURATION",
-            "  PROGRAM XExt : XExt;\nEND_CONFIGURATION",
+            &format!("  PROGRAM XExt : XExt;\n{cblock}END_CONFIGURATION"),
             1,
         );
         source.push_str(&tail);
@@ -248,7 +258,9 @@ pub fn materialize(
         if own_globals {
             source.push_str("CONFIGURATION XConf\n");
             source.push_str(&gblock);
-            source.push_str("  PROGRAM Main : Main;\n  PROGRAM XExt : XExt;\nEND_CONFIGURATION\n");
+            source.push_str("  PROGRAM Main : Main;\n  PROGRAM XExt : XExt;\n");
+            source.push_str(&cblock);
+            source.push_str("END_CONFIGURATION\n");
         }
     }
 
@@ -649,6 +661,10 @@ fn check_case(case: &Case, probe: &mut Probe) -> Result<(), String> {
         probe.label(l.clone());
         if l.starts_with("init:") {
             kinds.insert("initialiser");
+        } else if l.starts_with("for-first-write:") {
+            kinds.insert("for-first-write");
+        } else if l.starts_with("decl-sites") {
+            kinds.insert("declaration-sites");
         } else if l.starts_with("for:") {
             kinds.insert("for");
         } else if l.starts_with("params:") {
@@ -838,7 +854,7 @@ pub fn case_strategy(mode: &'static str) -> impl Strategy<Value = Case> {
     (
         tape_strategy(700),
         tape_strategy(60),
-        tape_strategy(160),
+        tape_strategy(260),
         tape_strategy(90),
         0u8..8,
     )
